@@ -37,6 +37,9 @@ def scratch_root() -> Path:
     global _ROOT, _ROOT_PID
     if _ROOT is None or _ROOT_PID != os.getpid():
         base = "/dev/shm" if os.path.isdir("/dev/shm") and os.access("/dev/shm", os.W_OK) else None
+        run_dir = os.environ.get("LADIM2_VERIF_SCRATCH")  # set by the runner: one directory per run, removed when the run ends
+        if run_dir and os.path.isdir(run_dir):
+            base = run_dir
         _ROOT = Path(tempfile.mkdtemp(prefix="ladim_verif_", dir=base))
         _ROOT_PID = os.getpid()
     return _ROOT
